@@ -617,6 +617,8 @@ pub fn oracle(files: &[FileM], st: &mut Stats) -> Verdict {
         (Err(_), _) => "rejected (order-dependent extend)",
     });
     st.class_if(files.iter().any(|f| f.extend.is_some()), "has-extend");
+    st.class_if(files.iter().any(|f| f.extend.is_some()) && matches!((&result, &refr), (Ok(_), RefOutcome::Accept(..))), "accepted with an extend layer (exact table checked)");
+    st.class_if(files.iter().any(|f| f.groups.iter().any(|g| match &g.units { Some(UnitsM::Unified(v)) => v.iter().any(|u| u.expand_si), Some(UnitsM::BySystem { metric, imperial, unspecified }) => metric.iter().chain(imperial).chain(unspecified).any(|u| u.expand_si), None => false })) && result.is_ok(), "accepted with SI expansion");
     st.class_if(files.len() > 1, "multi-layer");
     let Ok(conv) = &result else { return Ok(()) };
     generic_consistency(conv).map_err(|mut v| {
@@ -754,6 +756,44 @@ fn repair(mut files: Vec<FileM>, level: u8) -> Vec<FileM> {
             }
         }
     }
+    if level >= 2 {
+        // extend tables mostly address existing units and mostly add fresh keys
+        let mut existing: Vec<String> = vec![];
+        for f in &files {
+            for g in &f.groups {
+                let lists: Vec<&Vec<UnitM>> = match &g.units {
+                    Some(UnitsM::Unified(v)) => vec![v],
+                    Some(UnitsM::BySystem { metric, imperial, unspecified }) => vec![metric, imperial, unspecified],
+                    None => vec![],
+                };
+                for l in lists {
+                    for u in l {
+                        existing.extend(u.names.iter().chain(&u.symbols).chain(&u.aliases).cloned());
+                    }
+                }
+            }
+        }
+        let mut fresh = 0;
+        for (fi, f) in files.iter_mut().enumerate() {
+            if let Some(e) = &mut f.extend {
+                for (ei, (k, en)) in e.units.iter_mut().enumerate() {
+                    if !existing.is_empty() && (k.len() + ei) % 4 != 0 {
+                        *k = existing[(k.len() * 7 + fi * 3 + ei) % existing.len()].clone();
+                    }
+                    for list in [&mut en.names, &mut en.symbols, &mut en.aliases] {
+                        if let Some(v) = list {
+                            for x in v.iter_mut() {
+                                if (x.len() + ei) % 3 != 0 {
+                                    fresh += 1;
+                                    *x = format!("x{fresh}");
+                                }
+                            }
+                        }
+                    }
+                }
+            }
+        }
+    }
     // every quantity gets a unit and a best list in the first file
     let mut base_groups = vec![];
     for q in 0..5u8 {
@@ -770,6 +810,20 @@ fn repair(mut files: Vec<FileM>, level: u8) -> Vec<FileM> {
         f.groups = g;
     }
     if level >= 3 {
+        // SI prefix tables without clashes between prefixes or layers
+        for (fi, f) in files.iter_mut().enumerate() {
+            if let Some(si) = &mut f.si {
+                for (t, table) in [&mut si.prefixes, &mut si.symbol_prefixes].into_iter().enumerate() {
+                    if let Some(tb) = table {
+                        for (i, list) in tb.iter_mut().enumerate() {
+                            for (j, x) in list.iter_mut().enumerate() {
+                                *x = format!("{}{fi}{i}{j}", if t == 0 { "P" } else { "S" });
+                            }
+                        }
+                    }
+                }
+            }
+        }
         // best lists only name units of their own quantity that exist
         let mut by_q: Vec<Vec<String>> = vec![vec![]; 5];
         for f in &files {
